@@ -118,6 +118,8 @@ def tla(t):
         return f'[c |-> "prim", p |-> {q(t[1])}]'
     if c in ("list", "option"):
         return f'[c |-> {q(c)}, e |-> {tla(t[1])}]'
+    if c == "flist":
+        return f'[c |-> "flist", e |-> {tla(t[1])}, n |-> {t[2]}]'
     if c == "result":
         return f'[c |-> "result", ok |-> {tla(t[1])}, err |-> {tla(t[2])}]'
     if c == "tuple":
@@ -147,6 +149,8 @@ def tla(t):
 def xtla(x):
     if x[0] == "cfunc":
         return f'[x |-> "cfunc", sig |-> {q(",".join(x[1]) + "->" + ",".join(x[2]))}]'
+    if x[0] == "tag":
+        return f'[x |-> "tag", sig |-> {q(",".join(x[1]) + "->")}]'
     if x[0] == "mem":
         return f'[x |-> "mem", init |-> {x[1]}, max |-> {x[2]}, shared |-> {"TRUE" if x[3] else "FALSE"}, m64 |-> {"TRUE" if x[4] else "FALSE"}]'
     if x[0] == "table":
@@ -157,6 +161,8 @@ def xtla(x):
 def xwat(x):
     if x[0] == "cfunc":
         return "(func" + "".join(f" (param {p})" for p in x[1]) + "".join(f" (result {r})" for r in x[2]) + ")"
+    if x[0] == "tag":
+        return "(tag" + "".join(f" (param {p})" for p in x[1]) + ")"
     if x[0] == "mem":
         return "(memory" + (" i64" if x[4] else "") + f" {x[1]}" + (f" {x[2]}" if x[2] >= 0 else "") + (" shared" if x[3] else "") + ")"
     if x[0] == "table":
@@ -192,6 +198,8 @@ class Wat:
             return v[1]
         if c in ("list", "option"):
             return f"({c} {self.val(v[1], scope)})"
+        if c == "flist":
+            return f"(list {self.val(v[1], scope)} {v[2]})"
         if c == "result":
             s = "(result"
             if v[1] is not None:
@@ -270,12 +278,19 @@ def emit():
     case_values = [("record", [("URL", U8)]), ("record", [("url", U8)]), ("variant", [("A", None), ("b", U8)]),
                    ("enum", ["A", "b"]), ("flags", ["a", "B"]), ("record", [("a-URL", U8)]), ("record", [("a-url", U8)])]
     case_funcs = [("fn", [("A", U8)], None, False), ("fn", [("a-URL", STR)], None, False), ("fn", [("a-url", STR)], None, False)]
+    # fixed-length lists next to ordinary ones
+    flist_values = [("flist", U8, 4), ("flist", U8, 8), ("flist", STR, 4), ("list", ("flist", U8, 4)), ("flist", ("list", U8), 4)]
+    # core modules with tags, next to functions of the same name and signature
+    tg, fn_ = ("tag", ["i32"]), ("cfunc", ["i32"], [])
+    tag_modules = [("mod", {}, {"t": tg}), ("mod", {}, {"t": fn_}), ("mod", {"m::t": tg}, {}), ("mod", {"m::t": fn_}, {}),
+                   ("mod", {}, {"t": ("tag", ["i64"])})]
     # a type export whose type is a function type, next to the function export of that type (kinds of the exports differ)
     f0, f1 = ("fn", [], None, False), ("fn", [("a", U8)], None, False)
     type_items = [("inst", {"x": ("tyof", f0)}), ("inst", {"x": ("tyof", f1)}), ("inst", {"x": f0, "y": ("tyof", f1)}),
                   ("comp", {}, {"e": ("tyof", f0)})]
     for cls, items in (("value", values_depth1() + values_depth2()), ("fn", funcs()), ("inst", instances()), ("comp", components()),
-                       ("mod", modules()), ("value", case_values), ("fn", case_funcs), ("inst", type_items[:3]), ("comp", type_items[3:])):
+                       ("mod", modules()), ("value", case_values), ("fn", case_funcs), ("inst", type_items[:3]), ("comp", type_items[3:]),
+                       ("value", flist_values), ("mod", tag_modules)):
         for t in items:
             kinds.append((cls, t))
     t = ["---- MODULE Lib_types ----", "\\* GENERATED by lib/universe_types.py -- do not edit", "EXTENDS TLC, Integers"]
